@@ -23,6 +23,23 @@ fn hash_of<T: Hash>(t: &T) -> u64 {
     h.finish()
 }
 
+/// `from_montgomery_limbs` is public for Fq only (Fr and Fp keep it crate-private)
+pub trait FromMont: Sized {
+    fn from_mont(l: &[u64]) -> Option<Option<Self>>;
+}
+impl FromMont for decaf377::Fq {
+    fn from_mont(l: &[u64]) -> Option<Option<Self>> {
+        let a: Result<[u64; 4], _> = l.to_vec().try_into();
+        Some(a.ok().map(decaf377::Fq::from_montgomery_limbs))
+    }
+}
+impl FromMont for decaf377::Fr {
+    fn from_mont(_l: &[u64]) -> Option<Option<Self>> { None }
+}
+impl FromMont for decaf377::Fp {
+    fn from_mont(_l: &[u64]) -> Option<Option<Self>> { None }
+}
+
 macro_rules! field_impl {
     ($modname:ident, $F:ty, $N8:expr, $NL:expr, $is_fq:expr) => {
         pub mod $modname {
@@ -227,6 +244,15 @@ macro_rules! field_impl {
                                 Err(_) => "bad-op".into(),
                             }
                         }
+                        None => "bad-op".into(),
+                    },
+                    // the public constructor from Montgomery limbs (how every constant of the crate is built), both backends
+                    ("from_mont", [ls]) => match parse_limbs(ls) {
+                        Some(l) => match <F as FromMont>::from_mont(&l) {
+                            Some(Some(x)) => out(&x),
+                            Some(None) => "bad-op".into(),
+                            None => "unsupported".into(),
+                        },
                         None => "bad-op".into(),
                     },
                     #[cfg(feature = "ark")]
